@@ -94,7 +94,7 @@ theorem gen_hp_parse_empty (grow : Nat → Nat → Nat) (fuel : Nat) (s : Gen.ha
     unfold Slice.slice
     simp [Slice.cap]
   unfold blockN at h
-  unfold hashParser_Parse
+  unfold hashParser_Parse hashParser_Parse_nilable; simp only [Bool.false_eq_true]
   simp only [if_false, hs, bind_ok, ite_lt_min, ite_le_min] at h ⊢
   -- whatever the spelling of the clamp and of the test `n == 0`
   split
@@ -219,7 +219,7 @@ theorem gen_hp_parse (grow : Nat → Nat → Nat) (fuel : Nat) (s : Gen.hashPars
     unfold Slice.slice
     simp [Slice.cap]
   generalize hG : hashParser_Parse grow fuel s blk flags = G
-  unfold hashParser_Parse at hG
+  unfold hashParser_Parse hashParser_Parse_nilable at hG; simp only [Bool.false_eq_true] at hG
   simp only [if_false] at hG
   simp only [ite_lt_min, ite_le_min, ite_lt_max, ite_le_max] at hG
   simp only [hnG, hnG'] at hG
